@@ -89,6 +89,29 @@ CHECKS = {
              "must be rejected with the engine's unsafe-built-in error.",
         ref="DESIGN.md §6 C08", technique="TLA+ state machine of the gate + TLC-enumerated full product replayed into CompileProfile/Validate",
         note=TLC_NOTE + " OPA's compiler is the accepting oracle; the dangerous set is the property's list, checked to exist in the linked engine."),
+    "C03": dict(
+        text="spec/Report.tla defines the report header and result list the property prescribes from an abstract profile and "
+             "report configuration; TLC enumerates all 102400 scenarios (validations a, b and an undefined name over the three "
+             "level lists x defined x failing nodes x 8 configurations; quick: 2 of 40 slices), checks conforms iff no Violation "
+             "result, warnings/infos never change conforms, configuration locality and result-key iff results on each, and "
+             "every scenario is rendered and run through both configured entry points; conforms, result key, (severity, name, "
+             "focus) set, profileName, dateCreated and schema IRIs are compared.",
+        ref="DESIGN.md §6 C03", technique="TLA+ report model + exhaustive scenario enumeration (TLC) replayed into the validator"),
+    "C12": dict(
+        text="spec/Report.tla gives the shape grammar of report nodes and the positional @id scheme; TLC proves the scheme "
+             "injective on every uniform tree shape (depth<=3, fan-out<=3, with/without locations) and refutes it for a node "
+             "kind with two array slots; real reports from profiles built for several traces per result, several sub-results "
+             "per trace, nesting depth<=4, three severities and lexical locations are projected to trees and validated by TLC "
+             "(ReportTrace.tla): each @id equals its positional id and is unique in the document, focus nodes are graph node "
+             "ids, validation names / 'nested', non-empty message and trace, component and resultPath on every trace.",
+        ref="DESIGN.md §6 C12", technique="TLA+ model of the id scheme (TLC) + TLC trace validation of real reports"),
+    "C14": dict(
+        text="spec/Graph.tla defines Location(n) from lexical entries and source-file information; TLC enumerates scenarios "
+             "(entry mode per node: node-level / property-level only / none; file listing each node; range tuples with "
+             "magnitudes 0..123456; no source maps at all) and emits the location every node must get; each is rendered as "
+             "AMF-shaped source maps and validated with a profile producing results, traces and nested sub-results about all "
+             "nodes; uri and the four numbers are compared, and the report is compared with that of the stripped graph.",
+        ref="DESIGN.md §6 C14", technique="TLA+ lexical-index model + TLC-enumerated scenarios replayed into the validator"),
 }
 
 NOT_YET = "no check registered yet for this property in the current state of the framework (design in DESIGN.md §6)"
